@@ -7,6 +7,7 @@
   once, or fail always.
 -/
 import JS.Proofs.Store
+import JS.Proofs.Knowledge
 namespace JS.Props.C15
 open JS
 
@@ -84,5 +85,163 @@ theorem failure_not_memoised (ref : Str) (st : RState) (e : Exc)
     (h : (resolve env ref st).1 = .raise e) :
     (resolve env ref st).2.memo = st.memo :=
   resolve_raise_memo env ref st e h
+
+/-! ### Knowledge is transparent (cache transparency, C15; history independence, C07)
+
+A resolver that "knows more" — has more documents in its store, any memo whatsoever that is backed
+by documents, either setting of `cache_remote`, any memo capacity — gives the same errors and the
+same way of stopping as one that knows less, provided retrieval is stable: a URI always yields the
+same outcome (success with one fixed document, or failure), the same for URIs that normalise alike
+(A-handlers). -/
+
+/-- retrieval is stable: independent of the attempt number, and of the spelling up to normalisation -/
+def StableFetch (env : Env) : Prop :=
+  (∀ n m u, env.fetch n u = env.fetch m u)
+  ∧ (∀ n u u' k, env.urinorm u = some k → env.urinorm u' = some k → env.fetch n u = env.fetch n u')
+
+/-- every document `st` has under a key is what retrieval of a URI with that key yields, or was
+    supplied by the caller (`base` store) -/
+def StoreFaithful (env : Env) (base : List (Str × Json)) (st : RState) : Prop :=
+  ∀ k v, Json.lookup k st.store = some v →
+    Json.lookup k base = some v ∨ (Json.lookup k base = none ∧ ∃ u, env.urinorm u = some k ∧ env.fetch 0 u = some (some v))
+
+/-- each memo entry is the fragment of a document the store holds or retrieval yields -/
+def MemoFaithful (env : Env) (base : List (Str × Json)) (st : RState) : Prop :=
+  ∀ url v, Json.lookup url st.memo = some v →
+    ∃ u frag k doc, env.urldefrag url = some (u, frag) ∧ env.urinorm u = some k ∧ resolveFragment doc frag = some v
+      ∧ (Json.lookup k base = some doc ∨ (Json.lookup k base = none ∧ env.fetch 0 u = some (some doc)))
+
+/-- two resolver states over the same caller-supplied store `base` that differ only in what they
+    have learnt so far (store growth, memo contents and capacity, `cache_remote`, clock, log) -/
+structure SameWorld (env : Env) (base : List (Str × Json)) (st st' : RState) : Prop where
+  scopes : st.scopes = st'.scopes
+  base₁ : ∀ k v, Json.lookup k base = some v → Json.lookup k st.store = some v
+  base₂ : ∀ k v, Json.lookup k base = some v → Json.lookup k st'.store = some v
+  store₁ : StoreFaithful env base st
+  store₂ : StoreFaithful env base st'
+  memo₁ : MemoFaithful env base st
+  memo₂ : MemoFaithful env base st'
+
+/-- the oracle answers every retrieval query (with success or failure): `Stop.miss (.fetch n u)`,
+    the driver artefact "the oracle table lacks an answer", cannot occur -/
+def FetchAnswered (env : Env) : Prop := ∀ n u, env.fetch n u ≠ none
+
+/-- the same way of stopping, or on both sides the oracle's "no answer" for a retrieval of the same
+    URI (where the model reports the resolver's own attempt counter, which knowledge changes) -/
+def SameStop (env : Env) (s s' : Stop) : Prop :=
+  s = s' ∨ ∃ n m u, s = .miss (.fetch n u) ∧ s' = .miss (.fetch m u) ∧ env.fetch 0 u = none
+
+theorem sameWorld_iff {env : Env} {base : List (Str × Json)} {st st' : RState} :
+    SameWorld env base st st' ↔ Knowledge.SameWorldS env base st st' :=
+  ⟨fun h => ⟨h.scopes, ⟨h.base₁, h.store₁, h.memo₁⟩, ⟨h.base₂, h.store₂, h.memo₂⟩⟩,
+   fun h => ⟨h.scopes, h.left.holds, h.right.holds, h.left.store, h.right.store, h.left.memo, h.right.memo⟩⟩
+
+/-- **Knowledge is transparent** — the statement as first given. It is FALSE
+    (`knowledge_transparent_counterexample`): when the oracle has no answer for a retrieval, the
+    model stops with `Stop.miss (.fetch n u)` where `n` is the resolver's attempt counter, and
+    `SameWorld` (rightly) does not relate the counters. Everything else holds: see
+    `knowledge_transparent_upto` (no extra hypothesis, stops equal up to that counter) and
+    `knowledge_transparent_partial` (oracle answers every retrieval, conclusion as given). -/
+def knowledge_transparent_statement : Prop :=
+  ∀ (env : Env) (_ : StableFetch env) (impl : FmtImpl) (cfg : Cfg) (fuel : Nat)
+    (base : List (Str × Json)) (i s : Json) (b : Option Nat) (st st' : RState)
+    (_ : SameWorld env base st st'),
+    (eval env impl cfg fuel i s b st).errs = (eval env impl cfg fuel i s b st').errs
+    ∧ (eval env impl cfg fuel i s b st).stop = (eval env impl cfg fuel i s b st').stop
+    ∧ SameWorld env base (eval env impl cfg fuel i s b st).st (eval env impl cfg fuel i s b st').st
+
+/-- two fresh resolvers that differ in the attempt counter only, a reference the oracle cannot answer -/
+theorem knowledge_transparent_counterexample : ¬ knowledge_transparent_statement := by
+  intro h
+  have h1 := (h Knowledge.Cex.env Knowledge.Cex.stable Knowledge.Cex.impl Knowledge.Cex.cfg 1 [] .null
+    (Knowledge.Cex.refTo ['b']) none (Knowledge.Cex.st true 0) (Knowledge.Cex.st true 1)
+    (sameWorld_iff.2 (Knowledge.Cex.sameWorld ..))).2.1
+  have h2 := congrArg Knowledge.Cex.missClock h1
+  rw [Knowledge.Cex.kt_left, Knowledge.Cex.kt_right] at h2
+  cases h2
+
+/-- **Knowledge is transparent**, without any assumption on the oracle's coverage: same errors, the
+    same way of stopping up to the attempt number inside an oracle miss, related states. -/
+theorem knowledge_transparent_upto (env : Env) (hf : StableFetch env) (impl : FmtImpl) (cfg : Cfg) (fuel : Nat)
+    (base : List (Str × Json)) (i s : Json) (b : Option Nat) (st st' : RState)
+    (h : SameWorld env base st st') :
+    (eval env impl cfg fuel i s b st).errs = (eval env impl cfg fuel i s b st').errs
+    ∧ SameStop env (eval env impl cfg fuel i s b st).stop (eval env impl cfg fuel i s b st').stop
+    ∧ SameWorld env base (eval env impl cfg fuel i s b st).st (eval env impl cfg fuel i s b st').st := by
+  obtain ⟨h1, h2, h3⟩ := Knowledge.eval_sim hf impl cfg fuel i s b (sameWorld_iff.1 h)
+  exact ⟨h1, h2, sameWorld_iff.2 h3⟩
+
+/-- **Knowledge is transparent.** (conclusion as given; extra hypothesis `hans`) -/
+theorem knowledge_transparent_partial (env : Env) (hf : StableFetch env) (hans : FetchAnswered env)
+    (impl : FmtImpl) (cfg : Cfg) (fuel : Nat)
+    (base : List (Str × Json)) (i s : Json) (b : Option Nat) (st st' : RState)
+    (h : SameWorld env base st st') :
+    (eval env impl cfg fuel i s b st).errs = (eval env impl cfg fuel i s b st').errs
+    ∧ (eval env impl cfg fuel i s b st).stop = (eval env impl cfg fuel i s b st').stop
+    ∧ SameWorld env base (eval env impl cfg fuel i s b st).st (eval env impl cfg fuel i s b st').st := by
+  obtain ⟨h1, h2, h3⟩ := Knowledge.eval_sim_eq hf hans impl cfg fuel i s b (sameWorld_iff.1 h)
+  exact ⟨h1, h2, sameWorld_iff.2 h3⟩
+
+/-- a resolver and the same resolver with another `cache_remote`, memo capacity and an empty memo
+    live in the same world -/
+theorem sameWorld_reconfigured {env : Env} {st : RState} (cr : Bool) (cap : Option Nat)
+    (hst : SameWorld env st.store st st) :
+    SameWorld env st.store st { st with cacheRemote := cr, memoCap := cap, memo := [] } :=
+  ⟨rfl, hst.base₁, hst.base₁, hst.store₁, hst.store₁, hst.memo₁, fun _ _ h => nomatch h⟩
+
+/-- C15 cache transparency — the statement as first given. FALSE for the same reason as
+    `knowledge_transparent_statement` (`cache_transparent_counterexample`). -/
+def cache_transparent_statement : Prop :=
+  ∀ (env : Env) (_ : StableFetch env) (impl : FmtImpl) (cfg : Cfg) (fuel : Nat)
+    (i s : Json) (b : Option Nat) (st : RState) (cr : Bool) (cap : Option Nat)
+    (_ : SameWorld env st.store st st),
+    (eval env impl cfg fuel i s b st).errs
+        = (eval env impl cfg fuel i s b { st with cacheRemote := cr, memoCap := cap, memo := [] }).errs
+    ∧ (eval env impl cfg fuel i s b st).stop
+        = (eval env impl cfg fuel i s b { st with cacheRemote := cr, memoCap := cap, memo := [] }).stop
+
+/-- `allOf` of references to `a`, `a#` and `b`: with `cache_remote` on, `a` is retrieved once, with
+    it off twice, so the unanswered retrieval of `b` is attempt 1 resp. 2 -/
+theorem cache_transparent_counterexample : ¬ cache_transparent_statement := by
+  intro h
+  have h1 := (h Knowledge.Cex.env Knowledge.Cex.stable Knowledge.Cex.impl Knowledge.Cex.cfg 3 .null
+    Knowledge.Cex.three none (Knowledge.Cex.st true 0) false none
+    (sameWorld_iff.2 (Knowledge.Cex.sameWorld ..))).2
+  have h2 := congrArg Knowledge.Cex.missClock h1
+  rw [Knowledge.Cex.ct_left, Knowledge.Cex.ct_right] at h2
+  cases h2
+
+/-- C15: errors are identical, and the way of stopping up to the attempt number inside an oracle
+    miss, whether remote caching is on or off and whichever cache functions are supplied -/
+theorem cache_transparent_upto (env : Env) (hf : StableFetch env) (impl : FmtImpl) (cfg : Cfg) (fuel : Nat)
+    (i s : Json) (b : Option Nat) (st : RState) (cr : Bool) (cap : Option Nat)
+    (hst : SameWorld env st.store st st) :
+    (eval env impl cfg fuel i s b st).errs
+        = (eval env impl cfg fuel i s b { st with cacheRemote := cr, memoCap := cap, memo := [] }).errs
+    ∧ SameStop env (eval env impl cfg fuel i s b st).stop
+        (eval env impl cfg fuel i s b { st with cacheRemote := cr, memoCap := cap, memo := [] }).stop := by
+  obtain ⟨h1, h2, _⟩ := knowledge_transparent_upto env hf impl cfg fuel st.store i s b st _
+    (sameWorld_reconfigured cr cap hst)
+  exact ⟨h1, h2⟩
+
+/-- C15: verdicts and errors are identical whether remote caching is on or off and whichever cache
+    functions (memo capacity, initial memo) are supplied (conclusion as given; extra hypothesis `hans`) -/
+theorem cache_transparent_partial (env : Env) (hf : StableFetch env) (hans : FetchAnswered env)
+    (impl : FmtImpl) (cfg : Cfg) (fuel : Nat)
+    (i s : Json) (b : Option Nat) (st : RState) (cr : Bool) (cap : Option Nat)
+    (hst : SameWorld env st.store st st) :
+    (eval env impl cfg fuel i s b st).errs
+        = (eval env impl cfg fuel i s b { st with cacheRemote := cr, memoCap := cap, memo := [] }).errs
+    ∧ (eval env impl cfg fuel i s b st).stop
+        = (eval env impl cfg fuel i s b { st with cacheRemote := cr, memoCap := cap, memo := [] }).stop := by
+  obtain ⟨h1, h2, _⟩ := knowledge_transparent_partial env hf hans impl cfg fuel st.store i s b st _
+    (sameWorld_reconfigured cr cap hst)
+  exact ⟨h1, h2⟩
+
+/-- non-vacuity: a freshly built resolver (empty memo) is in the same world as itself, whatever its
+    store, so `cache_transparent_*` apply to every fresh validator -/
+theorem sameWorld_fresh (env : Env) (st : RState) (h : st.memo = []) : SameWorld env st.store st st :=
+  ⟨rfl, fun _ _ h => h, fun _ _ h => h, fun _ _ h => .inl h, fun _ _ h => .inl h,
+   fun _ _ hm => by rw [h] at hm; simp [Json.lookup] at hm, fun _ _ hm => by rw [h] at hm; simp [Json.lookup] at hm⟩
 
 end JS.Props.C15
